@@ -142,6 +142,37 @@ def grid_trace(sc):
     return ev
 
 
+def e2e_lonlat_trace(sc):
+    """complete runs with lon / lat among the output variables, split files, both layouts: every record's lon / lat must be
+    the bilinear interpolation of the grid's coordinates at X, Y of the same record"""
+    from ..e2e import run_e2e
+    tr = run_e2e(sc)
+    im, jm = sc["imax"], sc["jmax"]
+    # coordinate tables of harness/world.make_roms defaults (unit 2^-10 deg relative to (5, 60)): lon = 16 i + 2 j, lat = 8 j - i
+    ev = [dict(ev="setup", lon=[[16 * i + 2 * j for i in range(im)] for j in range(jm)], lat=[[8 * j - i for i in range(im)] for j in range(jm)], sub=sc["subgrid"] or [])]
+    fe = next((e for e in tr if e["ev"] == "files"), None)
+    if fe is None:
+        ev.append(dict(ev="crash", what=str(next((e.get("what") for e in tr if e["ev"] in ("crash", "refused")), "no files"))[:120]))
+        return ev
+    for f in fe["files"]:
+        for r in f["recs"]:
+            bad = any(v == -(2**30) for v in r["x"] + r["y"] + r["lon"] + r["lat"])
+            ev.append(dict(ev="llrecord", x=r["x"], y=r["y"], lon=r["lon"], lat=r["lat"], bad=bool(bad), file=f["idx"]))
+    return ev
+
+
+def e2e_scenarios(tier, rng):
+    from ..e2e import base_scenario
+    out = []
+    for _ in range(240 if tier == "thorough" else 60):
+        sc = base_scenario(rng, numrec=rng.choice([1, 2, 2, 3]), nsteps=rng.randrange(4, 9), ops=rng.choice([1, 2]), ntimes=2, nkill=rng.choice([0, 1]), nfreeze=0)
+        sc["lonlat_out"] = True
+        for r in sc["rows"]:
+            r["mult"] = max(1, r["mult"])
+        out.append(sc)
+    return out
+
+
 def s2d_scenarios(tier, rng):
     cases = []
     n = 12000 if tier == "thorough" else 2500
@@ -189,7 +220,8 @@ def grid_scenarios(tier, rng):
     return out
 
 
-DRIVERS = {"sample2d": ("harness.checks.c16", "s2d_trace", "GeoTrace", FAMILY),
+DRIVERS = {"e2e-lonlat": ("harness.checks.c16", "e2e_lonlat_trace", "GeoTrace", FAMILY),
+           "sample2d": ("harness.checks.c16", "s2d_trace", "GeoTrace", FAMILY),
            "lonlat": ("harness.checks.c16", "grid_trace", "GeoTrace", FAMILY)}
 
 
@@ -203,6 +235,9 @@ def run(tier, seed):
     s2 = grid_scenarios(tier, rng)
     t2 = pmap("harness.checks.c16", "grid_trace", s2)
     rep.add_tv("lonlat", "GeoTrace", s2, t2, tlc.validate_traces("GeoTrace", t2), family=FAMILY)
+    s3 = e2e_scenarios(tier, rng)
+    t3 = pmap("harness.checks.c16", "e2e_lonlat_trace", s3)
+    rep.add_tv("e2e-lonlat", "GeoTrace", s3, t3, tlc.validate_traces("GeoTrace", t3), family=FAMILY)
     rep.nontrivial = sum(len(s["cases"]) for s in s1) + sum(len(s["xq"]) + len(s["xr"]) for s in s2)
     rep.rule = ("sample2D: random small integer fields/masks, quarter-cell positions incl. outside, undefined and substitute values incl. 0; "
                 "lon/lat: sheared, curved coordinate tables (2^-10 deg), random sub-rectangles, 40 lattice probes (xy2ll exact) + 25 off-lattice "
